@@ -81,8 +81,8 @@ def pick_flags(rng):
     return rng.randrange(64)
 
 
-def gen_parse(rng, tier):
-    n = {"quick": 4, "thorough": 150}.get(tier, 1)
+def gen_parse(rng, tier, scale=1.0):
+    n = max(1, int({"quick": 4, "thorough": 100}.get(tier, 1) * scale))
     cases = []
     seeds = gen_dns.load_seeds()
     # hand-shaped layouts first
